@@ -18,6 +18,8 @@ def dispatch (prop : String) (ins outs : List String) : Verdict :=
   | "C02" => C02.run ins outs
   | "C08" => C08.run ins outs
   | "C19" => C19.run ins outs
+  | "C14" => C14.run ins outs
+  | "C17" => C17.run ins outs
   | _ => .bad ("unknown property " ++ prop)
 
 partial def loop (h : IO.FS.Stream) (out : IO.FS.Stream) (n : Nat) : IO Unit := do
